@@ -133,3 +133,44 @@ def canonNode : Node → List CItem
 def canonNodes (ns : List Node) : List CItem := ns.flatMap canonNode
 
 end Adeu.Doc
+
+namespace Adeu.Doc
+open Adeu
+
+/-- The whole content of a story as one token stream: everything except run boundaries. -/
+inductive DItem
+  | c (x : CItem)
+  | paraOpen (style : Option Str) (ppr : Str) | paraClose
+  | tblOpen (pr grid : Str) | tblClose
+  | rowOpen (pr : Str) | rowClose
+  | cellOpen (pr : Str) (span : Nat) (vm : VM) | cellClose
+  | otherBlock (xml : Str)
+deriving Repr, DecidableEq, Inhabited
+
+mutual
+  def streamBlocks : List Block → List DItem
+    | [] => []
+    | .para p :: rest =>
+      .paraOpen p.style p.ppr :: (canonNodes p.nodes).map .c ++ [.paraClose] ++ streamBlocks rest
+    | .table pr g rows :: rest => .tblOpen pr g :: streamRows rows ++ [.tblClose] ++ streamBlocks rest
+    | .other x :: rest => .otherBlock x :: streamBlocks rest
+  def streamRows : List Row → List DItem
+    | [] => []
+    | .mk pr cells :: rest => .rowOpen pr :: streamCells cells ++ [.rowClose] ++ streamRows rest
+  def streamCells : List Cell → List DItem
+    | [] => []
+    | .mk pr s v bs :: rest => .cellOpen pr s v :: streamBlocks bs ++ [.cellClose] ++ streamCells rest
+end
+
+structure CanonDoc where
+  headers : List (Str × List DItem)
+  body : List DItem
+  footers : List (Str × List DItem)
+deriving Repr, DecidableEq
+
+def canonDoc (d : Document) : CanonDoc :=
+  { headers := d.headers.map fun s => (s.ty, streamBlocks s.blocks),
+    body := streamBlocks d.body,
+    footers := d.footers.map fun s => (s.ty, streamBlocks s.blocks) }
+
+end Adeu.Doc
